@@ -24,6 +24,7 @@ import (
 	"github.com/holiman/uint256"
 	"github.com/indexsupply/shovel/eth"
 	"github.com/indexsupply/shovel/shovel/glf"
+	"github.com/indexsupply/shovel/verifhook"
 	"github.com/indexsupply/shovel/wctx"
 
 	"github.com/goccy/go-json"
@@ -489,11 +490,13 @@ type getter func(ctx context.Context, url string, start, limit uint64) ([]eth.Bl
 
 func (c *cache) pruneMaxRead() {
 	for k, v := range c.segments {
+		verifhook.Acquire(v, "seg-prune", k.a, k.b)
 		v.Lock()
 		if v.nreads >= c.maxreads {
 			delete(c.segments, k)
 		}
 		v.Unlock()
+		verifhook.Release(v)
 	}
 }
 
@@ -518,6 +521,7 @@ func (c *cache) get(nocache bool, ctx context.Context, url string, start, limit 
 	if nocache {
 		return f(ctx, url, start, limit)
 	}
+	verifhook.Acquire(c, "cache", start, limit)
 	c.Lock()
 	if c.segments == nil {
 		c.segments = make(map[key]*segment)
@@ -530,7 +534,10 @@ func (c *cache) get(nocache bool, ctx context.Context, url string, start, limit 
 	}
 	c.pruneSegments()
 	c.Unlock()
+	verifhook.Release(c)
 
+	verifhook.Acquire(seg, "seg", start, limit)
+	defer verifhook.Release(seg)
 	seg.Lock()
 	defer seg.Unlock()
 	seg.nreads++
